@@ -244,6 +244,63 @@ def opDefaults : List V → Option V
       ofChars ("ABCDEFGHIJKLMNOPQRSTUVWXYZ".toList.filter Mk.Decoys.defaultCut), ofNat Mk.Decoys.wrapWidth])
   | _ => none
 
+/-! ### second pass: call-count spec, declarative input layouts -/
+
+/-- `spec-C18-calls reverse [[site …] …] calls allId noneId` → `[verdict distinct]`: the proved spec of
+the number of generator calls (`callsOK`, `C18_calls_checker_sound`) on site lists computed by the
+caller (one list per protein, in file order) -/
+def opSpecCalls : List V → Option V
+  | [rev, sites, calls, allId, noneId] => do
+      let rev ← toBool? rev
+      let sites ← toList? (toList? toNat?) sites
+      let calls ← toNat? calls
+      let allId ← toBool? allId
+      let noneId ← toBool? noneId
+      let lens := sites.flatMap Mk.Decoys.neededLens
+      some (V.list [atom (if Mk.Decoys.callsOK rev lens calls allId noneId then "ok" else "fail-calls"),
+        ofNat (Mk.Decoys.distinctLens lens)])
+  | _ => none
+
+def eol? : V → Option Mk.Decoys.Eol
+  | V.atom "lf" => some Mk.Decoys.Eol.lf
+  | V.atom "crlf" => some Mk.Decoys.Eol.crlf
+  | V.atom "cr" => some Mk.Decoys.Eol.cr
+  | _ => none
+
+def optChars? : V → Option (Option (List Char))
+  | V.atom "none" => some none
+  | V.list [t] => (chars? t).map some
+  | _ => none
+
+def rec? : V → Option Mk.Decoys.FastaRec
+  | V.list [n, d, ls] => do
+      let n ← chars? n
+      let d ← optChars? d
+      let ls ← toList? chars? ls
+      some ⟨n, d, ls⟩
+  | _ => none
+
+def breakFreeb (l : List Char) : Bool := l.all (fun c => !Mk.Decoys.isBreak c)
+
+/-- executable form of the hypothesis `RecOK` of `C18_fasta_input_parse` -/
+def recOKb (r : Mk.Decoys.FastaRec) : Bool :=
+  r.name.all (fun c => c != ' ' && !Mk.Decoys.isBreak c) &&
+  (r.desc.map breakFreeb).getD true &&
+  r.lines.all (fun l => l.all (fun c => !Mk.Decoys.isBreak c && c != '>')) &&
+  (!r.header.isEmpty || !r.lines.isEmpty)
+
+/-- `c18-layout [[eol [[name desc lines] …]] …]` → `[[text …] [[name seq] …] hypotheses_hold]`: the
+declaratively described input rendered to file texts, and the proteins it denotes
+(`C18_fasta_input_parse`: what the reader must return when the hypotheses hold) -/
+def opLayout : List V → Option V
+  | [fs] => do
+      let fss ← toList? (toPair? eol? (toList? rec?)) fs
+      let texts := fss.map (fun p => Mk.Decoys.encodeEol p.1 (Mk.Decoys.fastaFileText p.2))
+      let entries := (fss.flatMap (·.2)).map Mk.Decoys.FastaRec.entry
+      let ok := !fss.isEmpty && fss.all (fun p => !p.2.isEmpty && p.2.all recOKb)
+      some (V.list [ofList ofChars texts, ofEntries entries, ofBool ok])
+  | _ => none
+
 end Mk.Ops.Decoys
 
 namespace Mk.Ops
@@ -253,6 +310,6 @@ def decoysOps : List (String × (List V → Option V)) :=
   [("c18-mkdecoys", Decoys.opMkDecoys), ("c18-parse", Decoys.opFastaParse), ("c18-roundtrip", Decoys.opFastaRt),
    ("c18-sites", Decoys.opSites18), ("spec-C18", Decoys.opSpecC18),
    ("c18-run", Decoys.opRun), ("c18-run-default", Decoys.opRunDefault), ("spec-C18-file", Decoys.opSpecFile),
-   ("c18-defaults", Decoys.opDefaults)]
+   ("c18-defaults", Decoys.opDefaults), ("spec-C18-calls", Decoys.opSpecCalls), ("c18-layout", Decoys.opLayout)]
 
 end Mk.Ops
